@@ -55,7 +55,12 @@ def trace_leg(rep, tier):
     wd = rep.wd
     runs = 400 if tier == "quick" else 6000
     tr = os.path.join(wd, "trace.ndjson")
-    p = lib.dv(["c12-record", str(lib.seed()), str(runs), tr])
+    p = lib.dv(["c12-record", str(lib.seed()), str(runs), tr], check=False)
+    if p.returncode != 0:
+        # the recorder died inside the code under test (abort on an UB check, heap corruption, ...): an observation
+        rep.violation({"leg": "record", "what": "process aborted while driving the real writer"},
+                      {"rc": p.returncode, "stderr": p.stderr[-3000:], "note": "re-run: dv c12-record %s %s %s" % (lib.seed(), runs, tr)})
+        return
     st = json.loads(p.stdout.strip().splitlines()[-1])
     ok, r = lib.validate_trace("write", "Trace_Write", "trace.cfg", tr, heap="4g")
     rep.add_tlc("Trace_Write", r)
